@@ -4,6 +4,7 @@
   (`remove_peer_connection`), for every state.
 -/
 import DV.Proofs.NodeQ
+import DV.Proofs.NodeTables
 namespace DV.Node
 
 theorem mem_erase (l : List Nat) (x : Nat) : x ∉ erase l x := by
@@ -49,6 +50,31 @@ theorem C13_close_closes_socket (s : St) (cid : Nat) (r : Reason) (h : s.peerSoc
       removePeerConnection (connClose (s.modConn cid fun c => { c with sockClosed := true }) cid false) cid r := by
   have h' : cid ∈ s.peerSockets := by simpa using h
   simp [closeConnectionSocket, h']
+
+/-- **In every reachable world the connection and socket tables agree**: for
+    every sequence of operations (accepts, dials, handshakes of every outcome,
+    faults, timeouts, closes, shutdown), `connections` and `peer_sockets` hold
+    the same connections, and nothing is in `_half_ready_connections` or
+    `socket_peers` that is not in `connections`. -/
+theorem C13_tables_consistent (hk : Config.removeCleansTables = true) (infoOf : AMsg → MsgInfo) (w : World) (ops : List Op)
+    (h : TInv w.st) : TInv (run infoOf w ops).st := by
+  unfold run
+  induction ops generalizing w with
+  | nil => exact h
+  | cons o ops ih => rw [List.foldl_cons]; exact ih _ (TInv_applyOp hk infoOf w o h)
+
+/-- Hence a connection that is no longer in `connections` (it was removed) is in
+    none of the other tables, in any reachable world. -/
+theorem C13_removed_everywhere (hk : Config.removeCleansTables = true) (infoOf : AMsg → MsgInfo) (w : World) (ops : List Op)
+    (h : TInv w.st) (cid : Nat) (hc : cid ∉ (run infoOf w ops).st.connections) :
+    cid ∉ (run infoOf w ops).st.peerSockets ∧ cid ∉ (run infoOf w ops).st.halfReady ∧
+    cid ∉ (run infoOf w ops).st.socketPeers := by
+  obtain ⟨a, b, c⟩ := C13_tables_consistent hk infoOf w ops h
+  exact ⟨a ▸ hc, fun hx => hc (b cid hx), fun hx => hc (c cid hx)⟩
+
+/-- a node that has not seen a connection yet satisfies the invariant -/
+example : TInv ({ (default : St) with connections := [], peerSockets := [], halfReady := [], socketPeers := [] }) :=
+  ⟨rfl, by simp, by simp⟩
 
 theorem C13_config : Config.removeOnlyOwn = true ∧ Config.removeCleansTables = true ∧
     Config.connectFailCloses = true ∧ Config.rejectStopsWorkers = true := ⟨rfl, rfl, rfl, rfl⟩
